@@ -88,4 +88,13 @@ unsigned int cfg_num(cfg_t *cfg)
 __CPROVER_requires(cfg == NULL || (__CPROVER_is_fresh(cfg, sizeof(*cfg)) && (cfg->opts == NULL || CFGV_OPTARRAY(cfg->opts))))
 __CPROVER_assigns()
 __CPROVER_ensures(__CPROVER_return_value == ((cfg && cfg->opts) ? (unsigned int)cfgv_term_k : 0u));
+/* contract::cfg_indent - exactly two blanks per depth level through fprintf(fp, "  "), for EVERY depth 0 .. 2^29 (the bound
+ * only keeps the ghost counter from overflowing).  The stream is a ghost counter: the fprintf carrier in harness/dfcc.c
+ * checks the stream and the format and adds the blanks.  Frame: the ghost counter only. */
+extern int cfgv_blanks; extern _Bool cfgv_badout; extern FILE *cfgv_fp;
+#define CFGV_MAXDEPTH (1 << 29)
+static void cfg_indent(FILE *fp, int indent)
+__CPROVER_requires(0 <= indent && indent <= CFGV_MAXDEPTH && fp == cfgv_fp && cfgv_blanks == 0 && !cfgv_badout)
+__CPROVER_assigns(cfgv_blanks, cfgv_badout)
+__CPROVER_ensures(cfgv_blanks == 2 * indent && !cfgv_badout);
 #endif
